@@ -151,10 +151,12 @@ def run(c):
     for nt in (True, False):
         for names in (['Start', 'AppSetsHooks'] + full if nt else ['Start', 'Start'] + full,
                       ['Start'] + full + ['HostEventAfter'] if not nt else ['Start'] + full + ['Start', 'AppSetsHooks'] + full):
-            ws = core.walks_matching(r.graph, names, init_filter=lambda st, nt=nt: st['noTrace'] == nt, limit=200)
-            # prefer walks whose shutdown has the most failing steps
-            ws.sort(key=lambda w: -max([len(x[2]['failing']) for x in w]))
+            ws = core.walks_matching(r.graph, names, init_filter=lambda st, nt=nt: st['noTrace'] == nt, limit=3000)
+            # prefer walks whose shutdown has pending deliveries failing (step 2) and the most failing steps
+            ws.sort(key=lambda w: (-max([int(2 in x[2]['failing']) for x in w]), -max([len(x[2]['failing']) for x in w])))
             curated += ws[:2]
+            only2 = [w for w in ws if max([len(x[2]['failing']) for x in w]) == 1 and any(2 in x[2]['failing'] for x in w)]
+            curated += only2[:1]
     # a second life of the agent after the application replaced / removed its hooks in between
     short = ['ShutdownBegin'] + ['ShutdownStep'] * 5 + ['ShutdownMark']
     ws = core.walks_matching(r.graph, ['Start'] + short + ['AppChangesHooks', 'Start'] + short,
